@@ -211,6 +211,7 @@ def parseNotifyAction (tok : String) : Option AdapterPush.Action :=
     | some g, some d => some (.pPush g d)
     | _, _ => none
   | ["recv", i] => (parseNat? i).map .recv
+  | ["graceDone", j] => (parseNat? j).map .graceDone
   | ["send", id] => (parseNat? id).map .send
   | _ => none
 
@@ -220,10 +221,12 @@ def showNats (l : List Nat) : String :=
 def notifyVariantName : AdapterPush.Variant → String
   | .reconnectFirst => "reconnectFirst"
   | .guardFirst => "guardFirst"
+  | .casGated => "casGated"
 
 def parseNotifyVariant : String → Option AdapterPush.Variant
   | "reconnectFirst" => some .reconnectFirst
   | "guardFirst" => some .guardFirst
+  | "casGated" => some .casGated
   | "tree" => some AdapterPush.treeVariant
   | _ => none
 
